@@ -1141,9 +1141,9 @@ func freshCall(c *core.Ctx, call *ssa.Call, idx, depth int, why *string) bool {
 // freshResultRule: byte results of the API are the caller's own.
 func freshResultRule(R string) RuleFunc {
 	return func(c *core.Ctx) {
-		c.Rule(R, "the []byte a public Example() hands out is freshly allocated on every path (make, append to a nil/fresh slice, string conversion, a JSON encoder's result, or a callee with the same property - traced through up to 6 calls and go/ssa's result slots): never the Data() of a Bytes, which is the file content itself. A caller that edits its result otherwise edits the schema text: the next Example(), Check() or error rendering sees the edited text")
-		c.Floor(R, 2)
-		for _, name := range []string{"(*notations/jschema.JSchema).Example", "(*notations/regex.RSchema).Example"} {
+		c.Rule(R, "the slice a public Example() or Enum.Values() hands out is freshly allocated on every path (make, append to a nil/fresh slice, string conversion, a JSON encoder's result, or a callee with the same property - traced through up to 6 calls and go/ssa's result slots): never the Data() of a Bytes, which is the file content itself. A caller that edits its result otherwise edits the schema text: the next Example(), Check() or error rendering sees the edited text")
+		c.Floor(R, 3)
+		for _, name := range []string{"(*notations/jschema.JSchema).Example", "(*notations/regex.RSchema).Example", "(*rules/enum.Enum).Values"} {
 			var f *ssa.Function
 			for g := range c.P.AllFuncs {
 				if core.FuncName(g) == name {
@@ -1161,7 +1161,7 @@ func freshResultRule(R string) RuleFunc {
 					ok = false
 				}
 			}
-			c.Check(ok, R, name, c.P.Pos(f.Pos()), "the bytes returned by "+name+" are freshly allocated on every path", "a returned value is not fresh: "+why)
+			c.Check(ok, R, name, c.P.Pos(f.Pos()), "the slice returned by "+name+" is freshly allocated on every path", "a returned value is not fresh: "+why)
 		}
 	}
 }
